@@ -24,17 +24,149 @@ DETECT_RE = re.compile(r'std_detect::detect::arch::(\w+)::__is_feature_detected:
 ALIAS = {'asimd': 'neon'}  # aarch64: is_aarch64_feature_detected!("neon") tests asimd
 
 
-def site_proven(facts, body, b, cache):
-    """features proven by detections whose true edge dominates block b (after M1 pruning)"""
-    if 'dets' not in cache:
-        cache['pruned'] = body.const_pruned_edges()
-        live = body.reachable_from(0, cache['pruned'])
-        cache['dets'] = [d for d in detections(body) if d['switch_bb'] in live]
-    out = set()
-    for d in cache['dets']:
-        if body.edge_dominates(d['true_edge'], b, cache['pruned']):
-            out |= closure(facts, d['feature'])
-    return out
+class Det:
+    """Fact edges of a body: CFG edges on which a set of features is proven present
+    (true edge of a runtime detection, or the arm of a match on the value returned by a
+    detection helper whose summary proves them) or refused (detection returned false)."""
+
+    def __init__(self, facts):
+        self.facts = facts
+        self._edges = {}
+        self._summ = {}
+        self._busy = set()
+
+    def edges(self, fnpath):
+        if fnpath in self._edges:
+            return self._edges[fnpath]
+        fn = self.facts.fns[fnpath]
+        body = fn.body
+        pruned = body.const_pruned_edges()
+        live = body.reachable_from(0, pruned)
+        out = []
+        dead = set()
+        for b in sorted(live):
+            t = body.term(b)
+            if t['k'] != 'switch' or body.blocks[b]['cleanup']:
+                continue
+            c = body.canon_op(t['discr'])
+            neg = False
+            while c[0] == 'un' and c[1] == 'Not':
+                neg = not neg
+                c = c[2]
+            if c[0] == 'call' and DETECT_RE.search(c[1]):
+                m = DETECT_RE.search(c[1])
+                zero = [tgt for v, tgt in t['targets'] if v == 0]
+                if len(zero) != 1:
+                    continue
+                f_edge, t_edge = (b, zero[0]), (b, t['otherwise'])
+                if neg:
+                    f_edge, t_edge = t_edge, f_edge
+                feat = ALIAS.get(m.group(2), m.group(2))
+                out.append({'edge': t_edge, 'proven': closure(self.facts, feat), 'refused': set(), 'via': feat})
+                out.append({'edge': f_edge, 'proven': set(), 'refused': {feat}, 'via': '!' + feat})
+                continue
+            # value returned by a detection helper: bool result or enum discriminant
+            call = None
+            if c[0] == 'call':
+                call, kind = c, 'bool'
+            elif c[0] == 'discr' and c[1][0] == 'call':
+                call, kind = c[1], 'enum'
+            if call is None or call[1] not in self.facts.fns and self.facts.instances.get(call[1]) is None:
+                continue
+            hp = call[1] if call[1] in self.facts.fns else self.facts.instances[call[1]]['def']
+            summ = self.summary(hp)
+            if not summ:
+                continue
+            listed = set()
+            for v, tgt in t['targets']:
+                listed.add(v)
+                vv = v
+                if kind == 'bool' and neg:
+                    vv = 1 - v
+                if vv in summ:
+                    out.append({'edge': (b, tgt), 'proven': set(summ[vv][0]), 'refused': set(summ[vv][1]),
+                                'via': '%s()=%s' % (core.short(hp), vv)})
+                else:
+                    dead.add((b, tgt))     # the helper never returns this value in this cfg
+            rest = [v for v in summ if v not in listed]
+            if kind == 'bool' and len(t['targets']) == 1:
+                v0 = t['targets'][0][0]
+                ov = 1 - v0
+                if neg:
+                    ov = 1 - ov
+                rest = [ov] if ov in summ else []
+            if len(rest) == 1:
+                vv = rest[0]
+                out.append({'edge': (b, t['otherwise']), 'proven': set(summ[vv][0]), 'refused': set(summ[vv][1]),
+                            'via': '%s()=%s' % (core.short(hp), vv)})
+            elif not rest and t['otherwise'] not in [tgt for _, tgt in t['targets']]:
+                dead.add((b, t['otherwise']))
+        if dead:
+            pruned = set(pruned) | dead
+            live = body.reachable_from(0, pruned)
+        self._edges[fnpath] = (out, pruned, live)
+        return self._edges[fnpath]
+
+    def at(self, fnpath, b):
+        """(proven, refused, via) on every path to block b of fn"""
+        es, pruned, live = self.edges(fnpath)
+        body = self.facts.fns[fnpath].body
+        proven, refused, via = set(), set(), []
+        for e in es:
+            if body.edge_dominates(e['edge'], b, pruned):
+                proven |= e['proven']
+                refused |= e['refused']
+                via.append(e['via'])
+        return proven, refused, via
+
+    def summary(self, fnpath):
+        """for a crate fn returning bool / a fieldless enum: value -> (proven, refused) holding
+        whenever that value is returned; {} if the fn is not a detection helper"""
+        if fnpath in self._summ:
+            return self._summ[fnpath]
+        if fnpath in self._busy:
+            return {}
+        self._busy.add(fnpath)
+        fn = self.facts.fns.get(fnpath)
+        res = {}
+        if fn is not None and fn.body.arg_count == 0 or (fn is not None and fn.output == 'bool'):
+            body = fn.body
+            es, pruned, live = self.edges(fnpath)
+            vals = {}
+            okk = True
+            for b in sorted(live):
+                blk = body.blocks[b]
+                for st in blk['stmts']:
+                    if st['k'] == 'assign' and st['lhs']['l'] == 0 and not st['lhs']['p']:
+                        rv = st['rv']
+                        v = None
+                        if rv['k'] == 'agg' and rv['agg'] == 'adt' and not rv['ops']:
+                            v = rv['vi']
+                        elif rv['k'] == 'use' and 'const' in rv['op'] and 'val' in rv['op']['const']:
+                            v = rv['op']['const']['val']
+                        if v is None:
+                            okk = False
+                            continue
+                        pr, rf, _ = self.at(fnpath, b)
+                        vals.setdefault(v, []).append((pr, rf))
+                t = blk['term']
+                if t['k'] == 'call' and t['dest']['l'] == 0 and not t['dest']['p']:
+                    m = DETECT_RE.search(t['callee'].get('path') or '')
+                    if m:
+                        feat = ALIAS.get(m.group(2), m.group(2))
+                        pr, rf, _ = self.at(fnpath, b)
+                        vals.setdefault(1, []).append((pr | closure(self.facts, feat), rf))
+                        vals.setdefault(0, []).append((pr, rf | {feat}))
+                    else:
+                        okk = False
+            if okk and vals:
+                for v, lst in vals.items():
+                    pr = set.intersection(*[x[0] for x in lst]) if lst else set()
+                    rf = set.intersection(*[x[1] for x in lst]) if lst else set()
+                    res[v] = (pr, rf)
+        self._busy.discard(fnpath)
+        self._summ[fnpath] = res
+        return res
 
 
 def compute_need(facts):
@@ -42,13 +174,12 @@ def compute_need(facts):
     call site are (a dispatcher such as DefaultEngine::eval_poly thereby needs nothing)."""
     cg = callgraph(facts)
     base = set()
-    bodies = {p: f.body for p, f in facts.fns.items()}
-    caches = {p: {} for p in facts.fns}
+    det = get_det(facts)
     proven_at = {}
     def proven(p, b):
         k = (p, b)
         if k not in proven_at:
-            proven_at[k] = site_proven(facts, bodies[p], b, caches[p])
+            proven_at[k] = det.at(p, b)[0]
         return proven_at[k]
     feats = {p: set(f.target_features) for p, f in facts.fns.items()}
     extf = {p: set(x.get('target_features', [])) for p, x in facts.externs.items()}
@@ -84,40 +215,16 @@ def compute_need(facts):
     return need, why
 
 
+def get_det(facts):
+    if not hasattr(facts, '_c14det'):
+        facts._c14det = Det(facts)
+    return facts._c14det
+
+
 def closure(facts, feat):
     feat = ALIAS.get(feat, feat)
     imp = facts.raw['implied_features'].get(feat)
     return set(imp) if imp else {feat}
-
-
-def detections(body):
-    """returns list of dicts: {call_bb, feature, switch_bb, true_edge, false_edge}"""
-    out = []
-    for b in range(body.n):
-        if body.blocks[b]['cleanup']:
-            continue
-        t = body.term(b)
-        if t['k'] != 'switch':
-            continue
-        c = body.canon_op(t['discr'])
-        neg = False
-        while c[0] == 'un' and c[1] == 'Not':
-            neg = not neg
-            c = c[2]
-        if c[0] != 'call':
-            continue
-        m = DETECT_RE.search(c[1])
-        if not m:
-            continue
-        zero = [tgt for v, tgt in t['targets'] if v == 0]
-        if len(zero) != 1:
-            continue
-        f_edge, t_edge = (b, zero[0]), (b, t['otherwise'])
-        if neg:
-            f_edge, t_edge = t_edge, f_edge
-        out.append({'call_bb': c[3], 'feature': m.group(2), 'switch_bb': b,
-                    'true_edge': t_edge, 'false_edge': f_edge})
-    return out
 
 
 def run(ctx):
@@ -129,6 +236,7 @@ def run(ctx):
     r_port = ctx.rule('C14.b-portable-last', 'the portable engine is chosen only behind the false edges of all SIMD detections')
     r_sib = ctx.rule('C14.d-siblings', 'DefaultEngine::new and DefaultEngine::eval_poly select by the same features in the same order')
     r_ctor = ctx.rule('C14.e-default-engine-ctor', 'DefaultEngine values are built only in DefaultEngine::new; ReedSolomon{En,De}coder::new use DefaultEngine::new()')
+    ctx.rule('C14.f-eval-poly-dispatch', 'polynomial evaluation is reached only through Engine::eval_poly (so that DefaultEngine can pick the best compiled version): utils::eval_poly is called only by Engine::eval_poly bodies and their private target_feature wrappers; decoders call E::eval_poly')
     r_fwd = ctx.rule('C14.e-forwarding', 'DefaultEngine::{fft,ifft,mul} dispatch to the boxed engine chosen by new()')
     for cfg in cfgs:
         facts = ctx.facts(cfg)
@@ -234,9 +342,8 @@ def check_cfg(ctx, facts, cfg):
     all_sel = {}
     for p, f in sorted(facts.fns.items()):
         body = f.body
-        pruned = body.const_pruned_edges()
-        live = body.reachable_from(0, pruned)
-        dets = [d for d in detections(body) if d['switch_bb'] in live]
+        det = get_det(facts)
+        es, pruned, live = det.edges(p)
         sites = []
         for b, t in body.calls():
             if b not in live:
@@ -259,12 +366,9 @@ def check_cfg(ctx, facts, cfg):
                     ctx.ok('C14.b-guarded', '%s:%s:%s@%s' % (p, adt, kind, cfg), None, nontrivial=False)
                     continue
                 # features proven on every path to b
-                proven = set(base)
-                covering = []
-                for d in dets:
-                    if body.edge_dominates(d['true_edge'], b, pruned):
-                        proven |= closure(facts, d['feature'])
-                        covering.append(d['feature'])
+                pr, refused, covering = det.at(p, b)
+                proven = set(base) | pr
+                covering = [c for c in covering if not c.startswith('!')]
                 missing = simd[adt] - proven
                 if missing:
                     ctx.violation('C14.b-guarded', '%s:%s' % (short_adt(adt), kind),
@@ -283,11 +387,10 @@ def check_cfg(ctx, facts, cfg):
                 # stronger engines must have been refused (false edges) before
                 for a, n in simd.items():
                     if n > simd[adt] and not (n <= proven):
-                        okd = [d for d in dets if closure(facts, d['feature']) >= n
-                               and body.edge_dominates(d['false_edge'], b, pruned)]
+                        okd = sorted(refused & n)
                         if okd:
                             ctx.ok('C14.b-best-first', '%s:%s-after-%s@%s' % (p, short_adt(adt), short_adt(a), cfg),
-                                   {'site': t['line'], 'refused_first': okd[0]['feature']})
+                                   {'site': t['line'], 'refused_first': okd[0]})
                         else:
                             ctx.violation('C14.b-best-first', '%s-before-%s' % (short_adt(adt), short_adt(a)),
                                           'selection of %s is reachable without first testing (and failing) detection for the more capable %s'
@@ -297,12 +400,11 @@ def check_cfg(ctx, facts, cfg):
                 # portable engine: only relevant inside a function that also selects SIMD engines
                 if any(s[2] in simd for s in sites) and not own:
                     bad = []
+                    pr, refused, _cov = det.at(p, b)
                     for a, n in simd.items():
                         if n <= base:
                             continue
-                        okd = [d for d in dets if closure(facts, d['feature']) >= n
-                               and body.edge_dominates(d['false_edge'], b, pruned)]
-                        if not okd:
+                        if not (refused & n):
                             bad.append(a)
                     if bad:
                         ctx.violation('C14.b-portable-last', 'portable-before:%s' % ','.join(short_adt(a) for a in bad),
@@ -351,6 +453,42 @@ def check_cfg(ctx, facts, cfg):
                 ctx.note('additional SIMD selection site in %s (guarded; see C14.b-guarded)' % p)
     else:
         ctx.ok('C14.d-siblings', 'no-simd-need@%s' % cfg, {'note': 'all SIMD features are compile-time baseline in this cfg'}, nontrivial=False)
+
+    # ---- C14.f: who may call the shared eval_poly body
+    up = 'engine::utils::eval_poly'
+    if ctx.anchor(facts, up, 'C14.f-eval-poly-dispatch'):
+        def is_engine_eval_poly(fp):
+            f2 = facts.fns.get(fp)
+            return f2 is not None and (fp == 'engine::Engine::eval_poly' or (f2.impl_trait == 'engine::Engine' and f2.name == 'eval_poly'))
+        n_callers = 0
+        for caller in sorted(cg.callers.get(up, ())):
+            n_callers += 1
+            okc = is_engine_eval_poly(caller)
+            if not okc:
+                f2 = facts.fns[caller]
+                cs = cg.callers.get(caller, set())
+                okc = (not f2.reachable) and cs and all(is_engine_eval_poly(c) and facts.fns[c].impl_self_adt == f2.impl_self_adt for c in cs)
+            if okc:
+                ctx.ok('C14.f-eval-poly-dispatch', '%s@%s' % (caller, cfg), None)
+            else:
+                ctx.violation('C14.f-eval-poly-dispatch', 'bypass', '%s calls the portable utils::eval_poly body directly instead of going through Engine::eval_poly: the default engine cannot select the best compiled version for this use'
+                              % caller, site=facts.fns[caller].span, fn=caller, cfg=cfg)
+        ctx.floor('C14.f-eval-poly-dispatch', 2, n_callers, 'callers of utils::eval_poly', cfg=cfg)
+        # decoders evaluate the polynomial through their engine parameter
+        nd = 0
+        for fp, f2 in sorted(facts.fns.items()):
+            if f2.impl_trait == 'rate::RateDecoder' and f2.name == 'decode':
+                evs = [t for b, t in f2.body.calls() if t['callee'].get('decl') == 'engine::Engine::eval_poly']
+                if evs:
+                    nd += 1
+                    for t in evs:
+                        st = t['callee'].get('self_ty')
+                        if st == 'E':
+                            ctx.ok('C14.f-eval-poly-dispatch', '%s:E::eval_poly@%s' % (fp, cfg), {'site': t['line']})
+                        else:
+                            ctx.violation('C14.f-eval-poly-dispatch', 'fixed-engine', '%s evaluates the polynomial with %s::eval_poly instead of its engine parameter' % (fp, st),
+                                          site=t['line'], fn=fp, cfg=cfg)
+        ctx.floor('C14.f-eval-poly-dispatch', 2, nd, 'decoders calling E::eval_poly', cfg=cfg)
 
     # ---- DefaultEngine construction only in new()
     de = 'engine::engine_default::DefaultEngine'
